@@ -109,7 +109,64 @@ def judge_valid(c, op, cfg, raw):
     return None
 
 
+def _basis_derivs(d, grid):
+    """exact values of d/ds and d/dt of every Bernstein basis function at the grid points (as float arrays)"""
+    import numpy as np
+    n = (d + 1) * (d + 2) // 2
+    Ds = np.zeros((len(grid), n)); Dt = np.zeros((len(grid), n))
+    for i in range(n):
+        unit = [F(1 if k == i else 0) for k in range(n)]
+        for g, (s, t) in enumerate(grid):
+            # derivative nets of the unit net
+            def idx(j, k, deg):
+                return sum(deg + 1 - kk for kk in range(k)) + j
+            ds, dt = [], []
+            for k in range(d):
+                for j in range(d - k):
+                    a0 = unit[idx(j, k, d)]
+                    ds.append(d * (unit[idx(j + 1, k, d)] - a0)); dt.append(d * (unit[idx(j, k + 1, d)] - a0))
+            if d > 1:
+                Ds[g, i] = float(oq.tri_bernstein(ds, d - 1, 1 - s - t, s, t)); Dt[g, i] = float(oq.tri_bernstein(dt, d - 1, 1 - s - t, s, t))
+            else:
+                Ds[g, i] = float(ds[0]); Dt[g, i] = float(dt[0])
+    return Ds, Dt
+
+
 def search(ctx):
+    """shallow folds: perturbation families scaled until the Jacobian just becomes non-positive somewhere;
+    a reported-valid verdict there is a violation.  Candidates are found in binary64, confirmed exactly."""
+    import random
+    import numpy as np
+    rng = random.Random("c13-search-%s" % ctx.seed)
+    m = 12
+    grid = [(F(i, m), F(j, m)) for i in range(m + 1) for j in range(m + 1 - i)]
+    cases = []
+    for d in (2, 3):
+        Ds, Dt = _basis_derivs(d, grid)
+        base = base_net(d)
+        n = len(base[0])
+        bx = np.array([float(x) for x in base[0]]); by = np.array([float(x) for x in base[1]])
+        for _ in range(400):
+            pert = [[F(rng.randint(-4, 4), 4) for i in range(n)] for _ in range(2)]
+            px = np.array([float(x) for x in pert[0]]); py = np.array([float(x) for x in pert[1]])
+            for k in range(1, 257):
+                amp = k / 128.0
+                x = bx + amp * px; y = by + amp * py
+                det = (Ds @ x) * (Dt @ y) - (Dt @ x) * (Ds @ y)
+                if det.min() <= 0:
+                    g = int(det.argmin())
+                    a2 = F(k, 128)
+                    rows2 = [[u + a2 * p for u, p in zip(r, pr)] for r, pr in zip(base, pert)]
+                    w2 = det_j_exact(d, rows2, *grid[g])
+                    if w2 <= 0:
+                        cases.append({"d": d, "rows": rows2, "kind": "shallow-fold", "worst": w2, "at": grid[g]})
+                    break
+    for cfg in ("pure", "speedup"):
+        res = run_impl(cfg, [{"op": "Triangle.is_valid", "args": [enc_arr(c["rows"])]} for c in cases])
+        for c, raw in zip(cases, res):
+            if "ok" in raw and dec_res(raw["ok"]) is True:
+                return {"config": cfg, "op": "Triangle.is_valid", "case": c, "implementation_returned": raw,
+                        "verdict": "reported valid but det J = %s <= 0 at (s,t) = %s" % (float(c["worst"]), c["at"])}
     return None
 
 
